@@ -67,64 +67,155 @@ def lay_grid(g, layout):
 
 
 def conv_fs(inp):
-    """Proportions as the recorded argument type: Python floats (default), Python ints, numpy scalars."""
+    """(proportion arguments, the caller's proportions vector or None).  Argument types: Python floats (default),
+    Python ints, numpy scalars, or - 'arr0' / 'arr0int' - zero-dimensional float / integer ndarrays that are views
+    of ONE proportions vector owned by the caller (an in-place operation on an argument would rewrite that vector)."""
     fs = [float(Fraction(f)) for f in inp['fs']]
     t = inp.get('ftype')
-    if t == 'int':
+    if t in ('int', 'arr0int'):
         assert all(f == int(f) for f in fs)
-        return [int(f) for f in fs]
+    if t == 'int':
+        return [int(f) for f in fs], None
     if t == 'np':
-        return [np.float64(f) for f in fs]
-    return fs
+        return [np.float64(f) for f in fs], None
+    if t in ('arr0', 'arr0int'):
+        vec = np.array(fs, dtype=float) if t == 'arr0' else np.array([int(f) for f in fs], dtype=np.int64)
+        return [vec[k:k + 1].reshape(()) for k in range(len(fs))], vec
+    return fs, None
 
 
 def conv_seq(q, t):
-    return tuple(q) if t == 'tuple' else np.array(q) if t == 'array' else list(q)
+    """A list of population numbers in the container type named by t (default: list)."""
+    if t == 'tuple':
+        return tuple(q)
+    if t == 'array':
+        return np.array(q)
+    if t in ('int64', 'int32', 'intp', 'uint8'):
+        return np.array(q, dtype=t)
+    return list(q)
 
 
-def execute(op, site, inp):
-    """Call the real dadi function named by `site` on the decoded inputs; return the 'out' part of a record."""
+def conv_int(a, t):
+    """A population number as Python int (default), numpy integer scalar or zero-dimensional integer ndarray."""
+    return np.int64(a) if t == 'np' else np.array(a, dtype=np.int64) if t == 'arr0' else a
+
+
+def typed_grid(g, inp):
+    if inp.get('gtype') == 'int':     # the two-point grid [0, 1] as an integer ndarray
+        assert all(x == int(x) for x in g)
+        return g.astype(np.int64)
+    return g
+
+
+def snapshot(watched):
+    """Bit-exact encoding of argument objects: container kind, element type, shape and every element as a string
+    (floats in C99 hexadecimal notation, which also tells -0.0 from 0.0).  Always the same record structure, so that
+    two snapshots can be compared for equality by TLC whatever happened to the objects."""
+    def item(v):
+        if isinstance(v, (bool, np.bool_)):
+            return str(bool(v))
+        if isinstance(v, (int, np.integer)):
+            return str(int(v))
+        if isinstance(v, (float, np.floating)):
+            return float(v).hex()
+        return repr(v)
+    out = []
+    for name, o in watched:
+        if isinstance(o, np.ndarray):
+            out.append({'name': name, 'kind': 'ndarray', 'dtype': str(o.dtype), 'sh': [int(n) for n in o.shape],
+                        'v': [item(x) for x in o.ravel().tolist()]})
+        elif isinstance(o, (list, tuple)):
+            out.append({'name': name, 'kind': type(o).__name__, 'dtype': ','.join(sorted(set(type(x).__name__ for x in o))),
+                        'sh': [len(o)], 'v': [item(x) for x in o]})
+        else:
+            out.append({'name': name, 'kind': 'scalar', 'dtype': type(o).__name__, 'sh': [], 'v': [item(o)]})
+    return out
+
+
+def build_call(op, site, inp):
+    """(function, positional arguments, keyword arguments, watched (name, object) pairs, index of a phi argument that
+    the function is DOCUMENTED to alter in place or None) for the call described by the record's 'in' part."""
     from dadi import PhiManip, Numerics
     name = fn_name(site)
     layout = inp.get('layout')
     kw = {'deme_ids': list(inp['deme_ids'])} if 'deme_ids' in inp else {}
-    try:
-        phi = lay_phi(dec_phi(inp['phi']), layout)
-        if op == 'split1d':
-            res = PhiManip.phi_1D_to_2D(lay_grid(dec_grid(inp['g']), layout), phi, **kw)
-        elif op == 'split':
-            res = getattr(PhiManip, name)(lay_grid(dec_grid(inp['g']), layout), phi, **kw)
-        elif op == 'admix_new':
-            gs = [lay_grid(g, layout) for g in dec_grids(inp['gs'] + [inp['gnew']])]
-            res = getattr(PhiManip, name)(phi, *conv_fs(inp), *gs, **kw)
-        elif op == 'pulse':
-            res = getattr(PhiManip, name)(phi, *conv_fs(inp), *[lay_grid(g, layout) for g in dec_grids(inp['gs'])])
-        elif op == 'remove':
-            g = lay_grid(dec_grid(inp['g']), layout)
-            if site.startswith('Numerics.'):
-                call = inp.get('call')
-                if call == 'neg_axis':
-                    res = Numerics.trapz(phi, g, axis=inp['a'] - 1 - phi.ndim)
-                elif call == 'default_axis':
-                    assert inp['a'] == phi.ndim
-                    res = Numerics.trapz(phi, g)
-                elif call == 'dx':
-                    res = Numerics.trapz(phi, dx=np.diff(g), axis=inp['a'] - 1)
-                else:
-                    res = Numerics.trapz(phi, g, axis=inp['a'] - 1)
-            else:
-                res = PhiManip.remove_pop(phi, g, inp['a'])
-        elif op == 'filter':
-            res = PhiManip.filter_pops(phi, lay_grid(dec_grid(inp['g']), layout), conv_seq(inp['keep'], inp.get('seqtype')))
-        elif op == 'reorder':
-            res = PhiManip.reorder_pops(phi, conv_seq(inp['perm'], inp.get('seqtype')))
+    phi = lay_phi(dec_phi(inp['phi']), layout)
+    inplace = None
+    if op in ('split1d', 'split'):
+        g = lay_grid(typed_grid(dec_grid(inp['g']), inp), layout)
+        fn = PhiManip.phi_1D_to_2D if op == 'split1d' else getattr(PhiManip, name)
+        args, watched = [g, phi], [('xx', g), ('phi', phi)]
+    elif op in ('admix_new', 'pulse'):
+        gs = [lay_grid(typed_grid(g, inp), layout) for g in dec_grids(inp['gs'] + ([inp['gnew']] if op == 'admix_new' else []))]
+        fs, vec = conv_fs(inp)
+        fn = getattr(PhiManip, name)
+        args = [phi] + fs + gs
+        watched = ([('proportions', vec)] if vec is not None else [('f[%d]' % (k + 1), f) for k, f in enumerate(fs)]) \
+            + [('grid[%d]' % (k + 1), g) for k, g in enumerate(gs)]
+        if op == 'pulse':
+            if 'in place' not in (fn.__doc__ or ''):
+                raise common.MachineryError('%s is not documented as altering phi in place' % name)
+            inplace = 0
         else:
-            raise common.MachineryError('unknown op %r' % op)
+            watched = [('phi', phi)] + watched
+    elif op == 'remove':
+        g = lay_grid(dec_grid(inp['g']), layout)
+        if site.startswith('Numerics.'):
+            call = inp.get('call')
+            fn = Numerics.trapz
+            if call == 'neg_axis':
+                args, kw = [phi, g], {'axis': inp['a'] - 1 - phi.ndim}
+            elif call == 'default_axis':
+                assert inp['a'] == phi.ndim
+                args = [phi, g]
+            elif call == 'dx':
+                args, kw = [phi], {'dx': np.diff(g), 'axis': inp['a'] - 1}
+            else:
+                args, kw = [phi, g], {'axis': inp['a'] - 1}
+            watched = [('yy', phi), ('xx', g)] + [(k, v) for k, v in kw.items() if k == 'dx']
+        else:
+            a = conv_int(inp['a'], inp.get('atype'))
+            fn, args, watched = PhiManip.remove_pop, [phi, g, a], [('phi', phi), ('xx', g), ('popnum', a)]
+    elif op == 'filter':
+        g = lay_grid(dec_grid(inp['g']), layout)
+        keep = conv_seq(inp['keep'], inp.get('seqtype'))
+        fn, args, watched = PhiManip.filter_pops, [phi, g, keep], [('phi', phi), ('xx', g), ('tokeep', keep)]
+    elif op == 'reorder':
+        perm = conv_seq(inp['perm'], inp.get('seqtype'))
+        fn, args, watched = PhiManip.reorder_pops, [phi, perm], [('phi', phi), ('neworder', perm)]
+    else:
+        raise common.MachineryError('unknown op %r' % op)
+    return fn, args, kw, watched, inplace
+
+
+def execute(op, site, inp):
+    """Call the real dadi function named by `site` on the decoded inputs; return the 'out' part of a record.
+
+    in.nth = k (default 1): the function is called k times in a row with the SAME argument objects (a phi that the
+    function is documented to alter in place is handed over as a fresh copy of the recorded density every time);
+    the record carries the result of the k-th call.  in.watch: the record also carries bit-exact encodings of the
+    argument objects as the caller wrote them and as they are after the k-th call."""
+    nth = inp.get('nth', 1)
+    try:
+        fn, args, kw, watched, inplace = build_call(op, site, inp)
+        before = snapshot(watched) if inp.get('watch') else None
     except common.MachineryError:
         raise
     except Exception as e:          # recorded; the specification decides whether raising was right
         return {'raised': type(e).__name__}
-    return {'phi': enc_phi(res)}
+    out = None
+    for k in range(nth):
+        if k and inplace is not None:
+            args[inplace] = lay_phi(dec_phi(inp['phi']), inp.get('layout'))
+        try:
+            out = {'phi': enc_phi(fn(*args, **kw))}
+        except common.MachineryError:
+            raise
+        except Exception as e:      # recorded; the specification decides whether raising was right
+            out = {'raised': type(e).__name__}
+    if before is not None:
+        out['args'] = {'before': before, 'after': snapshot(watched)}
+    return out
 
 
 # ---------------------------------------------------------------- the functions under test
@@ -329,6 +420,7 @@ def records(ctx):
         return kinds
     fixed_records(add, random.Random(ctx.seed + 606), ctors, pulses, ctx.quick)
     long_axis_records(add, random.Random(ctx.seed + 1006), ctors, pulses, ctx.quick)
+    reuse_records(add, random.Random(ctx.seed + 1606), ctors, pulses, ctx.quick)
     # ---- pulses
     for pf in pulses:
         P = pf['P']
@@ -509,6 +601,93 @@ def fixed_records(add, rng, ctors, pulses, quick):
         add('reorder', 'PhiManip.reorder_pops', {'phi': enc_phi(make_phi(rng, sh)), 'perm': ident[1:] + ident[:1], 'layout': 'sliced'})
 
 
+REUSED = '[arguments reused]'
+
+
+def reuse_records(add, rng, ctors, pulses, quick):
+    """State / aliasing (deterministic, both tiers): the functions are functions of the VALUES of their arguments.
+    Every function that takes a list-like argument (order, population numbers, proportions, grids, the density) is
+    called twice in a row with the SAME argument objects - lists, tuples, integer / float ndarrays, zero-dimensional
+    ndarrays viewing one proportions vector.  Both calls are judged by the ordinary clauses against the values the
+    caller wrote, and the argument objects are encoded bit for bit before the first and after each call (clause
+    ArgumentsUnchanged[<argument>]; the phi of the phi_*D_admix_* pulse functions is documented as altered in place:
+    it is not watched and every call gets a fresh copy)."""
+    def twice(op, site, inp):
+        for nth in (1, 2):
+            add(op, site + REUSED, dict(inp, nth=nth, watch=True))
+
+    def grid(n, k):
+        return make_grid(rng, n, GRID_KINDS[k % len(GRID_KINDS)])
+    # ---- reorder_pops: the order as list, tuple, integer ndarrays of several widths
+    for P in range(2, 6):
+        sh = [2 + (j % 3) for j in range(P)]
+        ident = list(range(1, P + 1))
+        for k, st in enumerate((None, 'tuple', 'int64', 'int32', 'intp', 'uint8')):
+            if k % 2:
+                perm = ident[1:] + ident[:1]                    # a cycle (not its own inverse for P > 2)
+            else:
+                perm = list(ident)
+                while perm == ident:
+                    rng.shuffle(perm)
+            twice('reorder', 'PhiManip.reorder_pops', {'phi': enc_phi(make_phi(rng, sh)), 'perm': perm, 'seqtype': st})
+    # ---- filter_pops: the kept population numbers
+    for P in range(2, 6):
+        n = 3
+        g = grid(n, P)
+        for k, st in enumerate((None, 'tuple', 'int64', 'int32')):
+            nk = 1 + (k + P) % (P - 1) if P > 2 else 1
+            keep = sorted(rng.sample(range(1, P + 1), nk))
+            if k == 1 and nk > 1:
+                keep = keep[::-1]
+            sh = [(2 + j % 3) if (j + 1) in keep else n for j in range(P)]
+            twice('filter', 'PhiManip.filter_pops', {'phi': enc_phi(make_phi(rng, sh)), 'g': rats(g), 'keep': keep, 'seqtype': st})
+    # ---- remove_pop / trapz: the population number as int, numpy integer, zero-dimensional integer ndarray
+    for P in range(1, 6):
+        for k, at in enumerate((None, 'np', 'arr0')):
+            a = (P + k) % P + 1
+            sh = [2 + ((j + a) % 3) for j in range(P)]
+            g = grid(sh[a - 1], a + P) if sh[a - 1] > 2 else np.array([0.0, 1.0])
+            phi = make_phi(rng, sh)
+            twice('remove', 'PhiManip.remove_pop', {'phi': enc_phi(phi), 'g': rats(g), 'a': a, 'atype': at})
+        twice('remove', 'Numerics.trapz', {'phi': enc_phi(phi), 'g': rats(g), 'a': a, 'call': ('neg_axis', 'dx', None)[P % 3]})
+    # ---- splits: float grids, and the two-point grid [0, 1] as an integer ndarray
+    for n, gt in ((4, None), (2, 'int')):
+        g = np.array([0.0, 1.0]) if n == 2 else grid(n, n)
+        twice('split1d', 'PhiManip.phi_1D_to_2D', {'phi': enc_phi(make_phi(rng, [n])), 'g': rats(g), 'gtype': gt})
+        for k in (1, 2):
+            twice('split', 'PhiManip.phi_2D_to_3D_split_%d' % k, {'phi': enc_phi(make_phi(rng, [n, n])), 'g': rats(g), 'k': k, 'gtype': gt})
+    # ---- new population by admixture, and pulses: proportions as zero-dimensional views of the caller's vector
+    # (floats at an interior point; integers at a vertex), numpy scalars, Python floats; one grid object for all axes
+    # and one object per axis
+    def unit(m, k):
+        f = [0.0] * m
+        f[k] = 1.0
+        return f
+    for idx, (kind_, obj) in enumerate([('pulse', pf) for pf in pulses] + [('admix_new', c) for c in ctors]):
+        P = obj['P'] if kind_ == 'pulse' else obj[1]
+        m = P - 1
+        n = 3 if P >= 3 else 4
+        name = obj['name'] if kind_ == 'pulse' else obj[0]
+        cases = [('interior', make_props(rng, m, 'interior'), 'arr0', None, 'same'),
+                 ('vertex_%d' % (idx % m), unit(m, idx % m), 'arr0int', None, 'same_length'),
+                 ('subface', make_props(rng, m, 'subface'), (None, 'np')[idx % 2], 'int' if idx % 3 == 0 else None, 'same')]
+        for kind, fs, ft, gt, mode in cases:
+            if gt == 'int':
+                gs = [np.array([0.0, 1.0])] * (P + (kind_ == 'admix_new'))
+            elif mode == 'same':
+                gs = [grid(n, idx + P)] * (P + (kind_ == 'admix_new'))
+            else:
+                gs = [grid(n, idx + P + j) for j in range(P + (kind_ == 'admix_new'))]
+            phi = make_phi(rng, [len(g) for g in gs[:P]])
+            inp = {'phi': enc_phi(phi), 'gs': [rats(g) for g in gs[:P]], 'fs': rats(fs), 'kind': 'reuse:' + kind, 'grids': mode,
+                   'ftype': ft, 'gtype': gt}
+            if kind_ == 'pulse':
+                inp.update({'dest': obj['dest'], 'src': obj['src']})
+            else:
+                inp['gnew'] = rats(gs[P])
+            twice(kind_, 'PhiManip.' + name, inp)
+
+
 #: axis lengths above the block sizes an implementation may work in (32, 64): 33 .. 70
 LONG = (33, 70, 40, 65, 34, 48, 67, 36, 57, 35)
 #: the same for the destination axis of a pulse in 4-D / 5-D (the judge's work grows with its square)
@@ -637,14 +816,36 @@ def nontrivial(r):
     if r['op'] in ('pulse', 'admix_new'):
         if i['kind'] == 'zero' and r['op'] == 'admix_new':
             return (r['site'], 'zero')
-        return (r['site'], i['kind'], tuple(i['phi']['sh']), i['grids'], i.get('layout'), i.get('ftype'))
+        return (r['site'], i['kind'], tuple(i['phi']['sh']), i['grids'], i.get('layout'), i.get('ftype'), i.get('gtype'), i.get('nth'))
     return (r['site'], tuple(i['phi']['sh']), i.get('a'), tuple(i.get('keep', ())), tuple(i.get('perm', ())),
-            i.get('layout'), i.get('call'), i.get('seqtype'))
+            i.get('layout'), i.get('call'), i.get('seqtype'), i.get('atype'), i.get('gtype'), i.get('nth'))
+
+
+_mut_turn = itertools.count()
+
+
+def mutate_args(rec):
+    """One element of one watched argument differs after the call by one unit in the last place (floats) / by 1 (integers)."""
+    import math
+    after = rec['out']['args']['after']
+    t = next(_mut_turn)
+    cand = [e for e in after if e['v']]
+    if not cand:
+        return None
+    e = cand[(t // 2) % len(cand)]
+    j = (t // 2) % len(e['v'])
+    try:
+        e['v'][j] = str(int(e['v'][j]) - 1)
+    except ValueError:
+        e['v'][j] = math.nextafter(float.fromhex(e['v'][j]), math.inf).hex()
+    return rec
 
 
 def mutate(rec):
     """Corrupt the observation so that a sound trace spec must reject the record."""
     out = rec['out']
+    if 'args' in out and next(_mut_turn) % 2 == 0:      # every other record with watched arguments: the state clause
+        return mutate_args(rec)
     if 'raised' in out:
         if rec['op'] in ('pulse', 'admix_new') and sum(Fraction(f) for f in rec['in']['fs']) > 1 + Fraction(1, 10 ** 6) / 2:
             # a refusal that the property demands: pretend the call was accepted
@@ -666,13 +867,29 @@ def mutate(rec):
     return rec
 
 
+def _changed(rec):
+    """Description only (the verdict is TLC's): the first differing element of each changed argument."""
+    a = rec['out'].get('args', {})
+    out = []
+    for b, c in zip(a.get('before', []), a.get('after', [])):
+        if b != c:
+            d = [k for k in range(min(len(b['v']), len(c['v']))) if b['v'][k] != c['v'][k]]
+            out.append('%s %s(%s): %s' % (b['name'], b['kind'], b['dtype'], 'element %d was %s, is %s' % (d[0], b['v'][d[0]], c['v'][d[0]]) if d
+                                          else 'type / shape %s %s %s -> %s %s %s' % (b['kind'], b['dtype'], b['sh'], c['kind'], c['dtype'], c['sh'])))
+    return '; '.join(out)
+
+
 def what_of(rec, clause):
     i = rec['in']
     fs = [float(Fraction(f)) for f in i.get('fs', [])]
     desc = {'RejectAboveOne': 'accepted proportions %s summing to %.12g (> 1): the property demands a refusal' % (fs, sum(fs)),
             'RefusedInSimplex': 'refused (%s) proportions %s, sum %.17g, a point of the simplex' % (rec['out'].get('raised'), fs, sum(fs))}
-    return 'record %s: %s %s [shape %s%s]' % (
-        rec['id'], rec.get('site'), desc.get(clause, 'clause %s violated%s' % (clause, (' for proportions %s' % fs) if fs else '')),
+    if clause.startswith('ArgumentsUnchanged'):
+        desc[clause] = 'changed an argument object of its caller: clause %s violated (%s)' % (clause, _changed(rec))
+    nth = ' (call no. %d with the same argument objects%s)' % (i['nth'], ', '.join(
+        [''] + ['%s as %s' % (k, i[k]) for k in ('seqtype', 'atype', 'ftype', 'gtype') if k in i])) if 'nth' in i else ''
+    return 'record %s: %s%s %s [shape %s%s]' % (
+        rec['id'], rec.get('site'), nth, desc.get(clause, 'clause %s violated%s' % (clause, (' for proportions %s' % fs) if fs else '')),
         i['phi']['sh'], (', grids ' + i['grids']) if 'grids' in i else '')
 
 
@@ -695,7 +912,11 @@ def run(ctx):
              '3 or 4, every entry of the density occupied - every axis of every constructor (new axis included) and pulse function, both tiers], array shape, '
              'grid mode [one grid for all axes | per-axis grids of equal | different lengths]); '
              'other records: distinct (function, shape, axis / kept set / permutation), incl. 33- and 70-point 1-D -> 2-D splits, 33-point 2-D -> 3-D splits and '
-             'removal / filtering / reordering with the long axis removed and kept',
+             'removal / filtering / reordering with the long axis removed and kept; reuse block (sites "...[arguments reused]"): every function called '
+             'twice in a row with the SAME argument objects - order / population numbers as list, tuple, int64 / int32 / intp / uint8 ndarray, numpy integer, '
+             '0-d integer ndarray; proportions as 0-d float / integer ndarrays viewing one vector of the caller, numpy scalars, floats; grids incl. the integer '
+             'ndarray [0, 1] - both calls judged against the values as written, plus bit-exact before / after encodings of the argument objects '
+             '(clause ArgumentsUnchanged[argument]; the phi of the phi_*D_admix_* pulse functions, documented as altered in place, excepted)',
         assumptions=['BigInteger rational arithmetic of the Rat override (self-tested against the TLA+ definitions)',
                      'tau_lin = 1e-10 relative to the largest exact value on the same fibre (new / destination axis); per-entry relative 1e-10 '
                      'for trapezoid sums of non-negative data; reorder_pops compared exactly',
